@@ -148,6 +148,7 @@ package ociserver
 //@   ensures[reports-the-new-size] result == nil ==> ncalls() == 4 && header("Range") == ocirequest.RangeString(0, calls[3].result)
 //@   ensures[refused-write-reaches-the-client] copyErr() != nil ==> result != nil &&
 //@     (errIs(copyErr(), ociregistry.ErrRangeInvalid) ==> errIs(result, ociregistry.ErrRangeInvalid))
+//@   ensures[never-cancels-the-upload] ncallsOf("Cancel") == 0
 
 //@ func (*registry).handleBlobCompleteUpload
 //@   private rreq, req
@@ -160,6 +161,10 @@ package ociserver
 //@     (errIs(copyErr(), ociregistry.ErrRangeInvalid) ==> errIs(result, ociregistry.ErrRangeInvalid))
 //@   ensures[failed-commit-reported] calls == [old(r.backend).PushBlobChunkedResume(_, _, _, _, _), w.Commit(_), w.Close()] &&
 //@     calls[1].result.1 != nil ==> result == calls[1].result.1
+// (a refused or failed request must leave the upload as it was, so that it can
+// still be completed: the server closes the writer, it never cancels the
+// upload on the client's behalf)
+//@   ensures[never-cancels-the-upload] ncallsOf("Cancel") == 0
 
 //@ func (*registry).handleManifestPut
 //@   private rreq, req
